@@ -265,7 +265,8 @@ def disk_cases(tier):
     for v in (vals if tier != 'quick' else vals[:2]):
         out.append({'kind': 'disk-prefix', 'lines': v})
         for i in range(len(v) + 1):
-            out.append({'kind': 'disk-getter-fails', 'lines': v, 'after': i})
+            for exc in ('GetterError', 'KeyboardInterrupt', 'SystemExit'):
+                out.append({'kind': 'disk-getter-fails', 'lines': v, 'after': i, 'exc': exc})
     return out
 
 
@@ -315,6 +316,11 @@ class C19(Check):
                 for b in (('get', 'k1'), ('rmv', 'k1'), ('get', 'k2')):
                     if tier == 'quick' and mode == 'procs' and b[1] == 'k2': continue
                     out.append({'kind': 'sched', 'mode': mode, 'progs': [p, [b]]})
+        # three callers on ONE key: two getters and a remover (a gap in a lock hand-over is only visible to a third party)
+        for mode in ('threads', 'procs'):
+            for c3 in (('rmv', 'k1'), ('get', 'k1')):
+                if tier == 'quick' and mode == 'procs' and c3[0] == 'get': continue
+                out.append({'kind': 'sched', 'mode': mode, 'progs': [[('get', 'k1')], [('get', 'k1')], [c3]]})
         if tier == 'thorough':
             for mode in ('threads', 'procs'):
                 for p in seq2:
@@ -363,7 +369,7 @@ class C19(Check):
             self._run_disk(case, acc)
         except HangDetected:
             acc.violation('ConcurrentCacher|caller waits forever (sequential spin)|disk', 'a lock left behind makes the next call spin forever', case)
-        except GetterError:
+        except (GetterError, KeyboardInterrupt, SystemExit):
             raise
         except Exception as e:      # noqa
             acc.violation(f'ConcurrentCacher|cacher unusable after a failure ({type(e).__name__})|disk', str(e)[:100], case)
@@ -374,22 +380,23 @@ class C19(Check):
         shutil.rmtree(d, ignore_errors=True); os.makedirs(d)
         if case['kind'] == 'disk-getter-fails':
             i = case['after']
+            EXC = {'GetterError': GetterError, 'KeyboardInterrupt': KeyboardInterrupt, 'SystemExit': SystemExit}[case.get('exc', 'GetterError')]
             def getter():
                 for j, l in enumerate(lines):
-                    if j == i: raise GetterError('x')
+                    if j == i: raise EXC('x')
                     yield l
-                if i >= len(lines): raise GetterError('x')
+                if i >= len(lines): raise EXC('x')
             for wrap in ('disk', 'concurrent'):
                 c = DiskCacher(d) if wrap == 'disk' else ConcurrentCacher(DiskCacher(d))
                 try:
                     with c.get_set('key', getter) as f: list(f)
                     acc.violation(f'DiskCacher|failing getter did not raise|{wrap}', f'after {i} lines')
-                except GetterError:
+                except EXC:
                     pass
                 if 'key' in c:
                     try:
                         with c.get_set('key', None) as f: got = [l.rstrip('\n') for l in f]
-                        acc.violation(f'DiskCacher|partial entry served after failed getter|{wrap}', f'after {i} of {len(lines)} lines: {got}')
+                        acc.violation(f'DiskCacher|partial entry served after failed getter|{wrap}' + ('' if EXC is GetterError else ' getter killed by ' + EXC.__name__), f'after {i} of {len(lines)} lines: {got}')
                     except Exception as e:     # noqa
                         acc.violation(f'DiskCacher|partial entry left after failed getter|{wrap}', f'{type(e).__name__}')
                 if wrap == 'concurrent' and any(v != 0 for v in c._locks.values()):
